@@ -173,8 +173,8 @@ def worldTags (w : World) (o : Out) : List String :=
 
 /-- oracle verdicts on one implementation outcome -/
 def holdsOf (w : World) (o : Out) : List (String × Bool) :=
-  [("C17.ctl_only_ours", onlyOurs w o), ("C08.ctl_protection", protection w o), ("C05.ctl_protection", protection w o),
-   ("C07.ctl_extra_status_exact", extraExact w o), ("C11.ctl_extra_status_exact", extraExact w o),
+  [("C17.ctl_only_ours", onlyOurs w o), ("C08.ctl_protection", protection w o),
+   ("C07.ctl_extra_status_exact", extraExact w o),
    ("C07.ctl_requeue_until_satisfied", requeueUntilSatisfied w o),
    ("C06.ctl_errors_reported", errorsReported w o), ("C06.ctl_both_attempted", bothAttempted w o),
    ("C17.ctl_paused_scales_only", pausedScalesOnly w o && pausedSizesKept w o)]
